@@ -861,6 +861,7 @@ class Pair:
         clock_start: float = 1000.0,
         spin_quantum: Optional[float] = 0.001,
     ) -> None:
+        _check_fresh_import()
         self.seed = seed
         if ticket_store is not None:
             clock_start = max(clock_start, ticket_store.resume_after)
@@ -1343,6 +1344,7 @@ class Pair:
         on_api_error: str = "raise",
         settle: bool = True,
         max_time: float = 300.0,
+        after_seen_timeout: float = 10.0,
     ) -> list[tuple["ScriptItem", Optional[str]]]:
         """Run a list of timed application actions.
 
@@ -1355,7 +1357,9 @@ class Pair:
         input or timers always follow the endpoint's ``capture_exceptions``.
         ``settle`` finally runs until idle.  Returns ``[(item, outcome)]`` with
         outcome ``None`` (done), an exception class name, or ``"skipped"`` (an
-        ``after_seen`` item whose stream never showed up within ``max_time``)."""
+        ``after_seen`` item whose stream did not show up within
+        ``after_seen_timeout`` virtual seconds -- e.g. the initiator only made
+        empty writes, which put nothing on the wire)."""
         t0 = self.clock.now
         s0 = len(self.steps)
         out: list[tuple[ScriptItem, Optional[str]]] = []
@@ -1374,7 +1378,7 @@ class Pair:
                 def seen(_p: "Pair", ep: Endpoint = ep, sid: int = sid) -> bool:
                     return any(getattr(e, "stream_id", None) == sid for _, e in ep.events)
 
-                self.run(seen, max_time=max_time)
+                self.run(seen, max_time=after_seen_timeout)
                 if not seen(self):
                     out.append((item, "skipped"))
                     continue
@@ -1395,6 +1399,19 @@ class Pair:
     def hex_trace(self) -> list[str]:
         """The network's canonical datagram trace (see :meth:`Network.hex_trace`)."""
         return self.network.hex_trace()
+
+
+def _check_fresh_import() -> None:
+    """Fail loudly if ``sim`` holds a stale aioquic (imported before the check
+    harness activated its overlay of the tree under test)."""
+    import sys
+
+    mod = sys.modules.get("aioquic.quic.connection")
+    if mod is None or getattr(mod, "QuicConnection", None) is not QuicConnection:
+        raise RuntimeError(
+            "sim was imported before the aioquic overlay was activated (or aioquic was "
+            "re-imported since): import sim inside run(ctx)/replay(ctx), not at module top"
+        )
 
 
 class _NullCtx:
